@@ -184,17 +184,19 @@ def run(call: GeneratorCall) -> Module:
         msg = f"Generator {call.gen} returned {m}, must return `Module`."
         raise RuntimeError(msg)
 
+    # Module naming
+    # Modules produced by another generator call, and handed along by this one, keep their name.
+    if m._generated_by is None:
+        # If the Module that comes back is anonymous, start by giving it a name equal to the Generator's
+        if m.name is None:
+            m.name = call.gen.name
+
+        # If it has a nonzero number of parameters, add a unique suffix per its parameter-values
+        if hasparams(call.gen.Params):
+            m.name += "(" + _unique_name(call.params) + ")"
+
     # Give the result a reference back to the generating `Call`
     m._generated_by = call
-
-    # Module naming
-    # If the Module that comes back is anonymous, start by giving it a name equal to the Generator's
-    if m.name is None:
-        m.name = call.gen.name
-
-    # If it has a nonzero number of parameters, add a unique suffix per its parameter-values
-    if hasparams(call.gen.Params):
-        m.name += "(" + _unique_name(call.params) + ")"
 
     # Store the result in our cache, and on the Call.
     the_cache.stack.pop()
